@@ -178,44 +178,11 @@ pub fn run_c07(tier: Tier) -> Report {
         }
     });
     rep.add_transitions(65536 * 24);
-    // (F) one chroma sample differs from an otherwise uniform chroma plane - at every position of
-    // every plane for widths 1..=40 and heights 1..=4: a decision taken for a whole row or picture
-    // from a scan that misses one position (the tail behind the whole groups, the last row) shows here
+    // (F) one chroma sample differs from an otherwise uniform chroma plane (see `one_odd_chroma_sweep`)
     {
-        let bases: [((u8, u8), (u8, u8)); 4] = [((128, 128), (90, 240)), ((128, 128), (128, 240)), ((90, 240), (128, 128)), ((60, 200), (60, 201))];
-        let work: Vec<(usize, usize)> = (1..=40usize).flat_map(|w| (1..=4usize).map(move |h| (w, h))).collect();
-        let n_f = AtomicU64::new(0);
-        work.par_iter().for_each(|&(w, h)| {
-            let (cw, chh) = (w.div_ceil(2), h.div_ceil(2));
-            let y: Vec<u8> = (0..w * h).map(|k| [16u8, 125, 200, 235, 81, 41, 106, 180, 60][k % 9]).collect();
-            for (base, odd) in bases {
-                for pos in 0..cw * chh {
-                    let mut cbp = vec![base.0; cw * chh];
-                    let mut crp = vec![base.1; cw * chh];
-                    cbp[pos] = odd.0;
-                    crp[pos] = odd.1;
-                    n_f.fetch_add(1, Ordering::Relaxed);
-                    match catch(|| yuv420_to_rgba(&y, &cbp, &crp, w)) {
-                        Err(p) => rep.violation(&crate::evidence::panic_sig(&p), format!("{w}x{h} picture, chroma {base:?} except sample {pos} = {odd:?}: panic {p}"), replay_json(w, &y, &cbp, &crp)),
-                        Ok(o) => {
-                            for k in 0..w * h {
-                                let (x, yy) = (k % w, k / w);
-                                let ci = (yy / 2) * cw + x / 2;
-                                let e = m.conv(y[k], cbp[ci], crp[ci]);
-                                if o.len() != 4 * w * h || o[4 * k..4 * k + 4] != e {
-                                    rep.violation_lazy("C07/colour-one-odd-chroma-sample", || {
-                                        (format!("{w}x{h} picture, chroma {base:?} everywhere except sample {pos} = {odd:?}: pixel ({x},{yy}) converts to {:?}, model {:?}", o.get(4 * k..4 * k + 4), e), replay_json(w, &y, &cbp, &crp))
-                                    });
-                                    break;
-                                }
-                            }
-                        }
-                    }
-                }
-            }
-        });
-        rep.add_transitions(n_f.load(Ordering::Relaxed));
-        rep.extra("one_odd_chroma_sample_pictures", json!(n_f.load(Ordering::Relaxed)));
+        let n_f = one_odd_chroma_sweep(&rep, &m, "C07");
+        rep.add_transitions(n_f);
+        rep.extra("one_odd_chroma_sample_pictures", json!(n_f));
     }
     // (G) neighbouring groups differing in one or two sample slots (see `neighbour_group_sweep`)
     {
@@ -270,6 +237,45 @@ pub fn run_c07(tier: Tier) -> Report {
 /// its eight sample slots (four luma, two Cb, two Cr), every pair of slots x all 65536 values of
 /// the pair x the given base groups, side by side in a row (8x2) and one below the other (4x4): a
 /// result carried from one group to the next under a comparison that is not injective shows here.
+// One chroma sample differs from an otherwise uniform chroma plane - at every position of
+// every plane for widths 1..=40 and heights 1..=4: a decision taken for a whole row or picture
+// from a scan that misses one position (the tail behind the whole groups, the last row) shows here
+fn one_odd_chroma_sweep(rep: &Report, m: &Bt601, prop: &str) -> u64 {
+    let bases: [((u8, u8), (u8, u8)); 4] = [((128, 128), (90, 240)), ((128, 128), (128, 240)), ((90, 240), (128, 128)), ((60, 200), (60, 201))];
+    let work: Vec<(usize, usize)> = (1..=40usize).flat_map(|w| (1..=4usize).map(move |h| (w, h))).collect();
+    let n_f = AtomicU64::new(0);
+    work.par_iter().for_each(|&(w, h)| {
+        let (cw, chh) = (w.div_ceil(2), h.div_ceil(2));
+        let y: Vec<u8> = (0..w * h).map(|k| [16u8, 125, 200, 235, 81, 41, 106, 180, 60][k % 9]).collect();
+        for (base, odd) in bases {
+            for pos in 0..cw * chh {
+                let mut cbp = vec![base.0; cw * chh];
+                let mut crp = vec![base.1; cw * chh];
+                cbp[pos] = odd.0;
+                crp[pos] = odd.1;
+                n_f.fetch_add(1, Ordering::Relaxed);
+                match catch(|| yuv420_to_rgba(&y, &cbp, &crp, w)) {
+                    Err(p) => rep.violation(&crate::evidence::panic_sig(&p), format!("{w}x{h} picture, chroma {base:?} except sample {pos} = {odd:?}: panic {p}"), replay_json(w, &y, &cbp, &crp)),
+                    Ok(o) => {
+                        for k in 0..w * h {
+                            let (x, yy) = (k % w, k / w);
+                            let ci = (yy / 2) * cw + x / 2;
+                            let e = m.conv(y[k], cbp[ci], crp[ci]);
+                            if o.len() != 4 * w * h || o[4 * k..4 * k + 4] != e {
+                                rep.violation_lazy(&format!("{prop}/colour-one-odd-chroma-sample"), || {
+                                    (format!("{w}x{h} picture, chroma {base:?} everywhere except sample {pos} = {odd:?}: pixel ({x},{yy}) converts to {:?}, model {:?}", o.get(4 * k..4 * k + 4), e), replay_json(w, &y, &cbp, &crp))
+                                });
+                                break;
+                            }
+                        }
+                    }
+                }
+            }
+        }
+    });
+    n_f.load(Ordering::Relaxed)
+}
+
 fn neighbour_group_sweep(rep: &Report, m: &Bt601, prop: &str, bases: &[[u8; 8]]) -> u64 {
     let pairs: Vec<(usize, usize)> = (0..8usize).flat_map(|i| (i + 1..8).map(move |j| (i, j))).collect();
     let work: Vec<(usize, usize, usize, usize)> = (0..bases.len()).flat_map(|b| pairs.iter().flat_map(move |&(i, j)| (0..256usize).map(move |a| (b, i, j, a)))).collect();
@@ -464,6 +470,15 @@ pub fn run_c08(tier: Tier) -> Report {
         let n_g = neighbour_group_sweep(&rep, &m, "C08", &[[0xFF; 8], [16, 125, 200, 235, 90, 144, 240, 128]]);
         rep.add_transitions(n_g);
         rep.extra("neighbouring_group_pictures", json!(n_g));
+    }
+    // one chroma sample differs from an otherwise uniform (neutral or coloured) chroma plane, at every
+    // position, widths 1..=40 x heights 1..=4: the sample behind the whole groups of a row, or of the
+    // last row, must still reach its own pixels
+    {
+        let n_f = one_odd_chroma_sweep(&rep, &m, "C08");
+        rep.add_transitions(n_f);
+        rep.add_states(n_f);
+        rep.extra("one_odd_chroma_sample_pictures", json!(n_f));
     }
     let n_place = placement_sweep(&rep, &m, "C08", seed);
     rep.add_transitions(n_place);
